@@ -110,6 +110,8 @@ def generate(rng, tier):
 def impl(case):
     w, e, s, n, lons, lats = case["args"]
     region = (w, e, s, n)
+    if all(float(v).is_integer() for v in region) and (int(abs(w)) + int(abs(e))) % 3 == 0:
+        region = np.array([int(v) for v in region])      # whole-degree bounds as an integer array (the coordinates keep their own type)
     if len(lons) == 1 and (int(abs(w) * 8) + int(abs(e) * 8)) % 2 == 0:
         # ONE point handed over as plain numbers (a station's longitude and latitude): wrapped like any array
         r = C.call(vd.longitude_continuity, [float(lons[0]), float(lats[0])], region)
